@@ -54,8 +54,9 @@ def copy_step(sw, path, cat):
     slot = slot_desc(root.a, path)
     key = f'copy@{slot}:{sw.name}:{path}'
     in_fstr = under_fstring(root.a, path[:-1]) if path else False
+    copts = sw.payload.get('copy_opts', {})
     try:
-        piece = node.copy()
+        piece = node.copy(**copts)
     except Exception as e:
         sw.distinct.add(('copy-refused', path))
         if root.src != src0 or dump(root.a) != d0:
@@ -67,8 +68,38 @@ def copy_step(sw, path, cat):
         return
     # structural faithfulness (docstring-bearing pieces are compared up to the documented re-indentation: skipped
     # when the sub-tree contains a multi-line string constant)
-    multiline_str = any(isinstance(n, ast.Constant) and isinstance(n.value, str) and '\n' in n.value
-                        for n in ast.walk(node.a))
+    def reindentable(n, parent, idx):
+        """may the documented docstring re-indentation change this multi-line string under the docstr option used?"""
+        ds = copts.get('docstr', True)
+        if ds is False:
+            return False
+        is_expr_stmt = isinstance(parent, ast.Expr)
+        if ds is True:
+            return is_expr_stmt
+        return False   # 'strict': only real docstring positions; handled by the caller's position test below
+
+    def has_reindentable(tree):
+        ds = copts.get('docstr', True)
+        if ds is False:
+            return False
+        for p in ast.walk(tree):
+            body = getattr(p, 'body', None)
+            if not isinstance(body, list):
+                continue
+            for i, st in enumerate(body):
+                if isinstance(st, ast.Expr) and isinstance(st.value, ast.Constant) and isinstance(st.value.value, str) \
+                        and '\n' in st.value.value:
+                    if ds is True:
+                        return True
+                    if i == 0 and isinstance(p, (ast.FunctionDef, ast.AsyncFunctionDef, ast.ClassDef, ast.Module)):
+                        return True
+        if isinstance(tree, ast.Expr) and isinstance(tree.value, ast.Constant) and isinstance(tree.value.value, str) \
+                and '\n' in tree.value.value:
+            return copts.get('docstr', True) is True or (path and path[-1] == ('body', 0) and isinstance(
+                follow(root, path[:-1]).a if path[:-1] else root.a,
+                (ast.FunctionDef, ast.AsyncFunctionDef, ast.ClassDef, ast.Module)))
+        return False
+    multiline_str = has_reindentable(node.a)
     if (not multiline_str and not in_fstr and _norm(ast.dump(piece.a)) != _norm(sub0)
             and not isinstance(piece.a, ast.Module)):
         sw.fail('C07', key + ':unfaithful', 'copy() is not structurally equal to the original sub-tree',
@@ -81,12 +112,12 @@ def copy_step(sw, path, cat):
     r1, r2 = sw.fresh(), sw.fresh()
     n1, n2 = follow(r1, path), follow(r2, path)
     try:
-        cutp = n1.cut()
+        cutp = n1.cut(**copts)
         cut_ok = True
     except Exception:
         cut_ok = False
     try:
-        n2.remove()
+        n2.remove(**copts)
         del_ok = True
     except Exception:
         del_ok = False
